@@ -3,7 +3,8 @@
 (* of Zatoshis / ZatBalance on the real code:                                                       *)
 (*    op   name of the operation (a key of Amounts!Ops)                                             *)
 (*    a    its arguments as decimal numerals ("none" for an absent Option operand; for the          *)
-(*         iterator sums the list of summands; for byte parsers the pattern number of the bytes)    *)
+(*         iterator sums the list of summands; for the long sums <<amount, number of copies>> or    *)
+(*         <<amount, number of copies, last summand>>; for byte parsers the pattern number)          *)
 (*    b    input bytes (byte parsers; otherwise empty)                                              *)
 (*    r    the outcome: <<numeral>> | <<"none">> | <<"err:overflow">> | <<"err:underflow">> |       *)
 (*         <<"err:io">> | <<"panic">> | <<"bytes">> | <<quotient, remainder>>                       *)
@@ -70,6 +71,9 @@ Allowed(e) ==
                 [] ent.mode = "fold" ->
                      /\ e.ob = << >>
                      /\ e.r \in UNION {Shown(o) : o \in A!SumOutcomes(ent.res, x[1])}
+                [] ent.mode = "foldrep" ->
+                     /\ e.ob = << >>
+                     /\ e.r \in UNION {Shown(o) : o \in A!RepOutcomes(ent.res, x[1], x[2], x[3])}
                 [] OTHER ->
                      /\ e.ob = << >>
                      /\ e.r \in (Shown(A!Spec(e.op, x)) \cup SpuriousNone(e.op, x))
@@ -83,6 +87,7 @@ Expected(e, n) ==
          IN  CASE ent.mode = "enc" -> <<"the 8 little-endian bytes of", DecToString(A!Spec(e.op, x).v)>>
                [] ent.mode \in {"div", "quotrem"} -> <<"q*d + r = v, 0 <= r < d">>
                [] ent.mode = "fold" -> <<"one of", UNION {Shown(o) : o \in A!SumOutcomes(ent.res, x[1])}>>
+               [] ent.mode = "foldrep" -> <<"one of", UNION {Shown(o) : o \in A!RepOutcomes(ent.res, x[1], x[2], x[3])}>>
                [] OTHER -> <<"one of", Shown(A!Spec(e.op, x)) \cup SpuriousNone(e.op, x)>>
 
 IsEnd(e) == e.op = "end" /\ e.a = <<ToString(l - 1)>>
